@@ -52,6 +52,9 @@ type Server struct {
 	wg         *sync.WaitGroup
 	onConnect  ConnectHook
 	onClose    TerminateHook
+	// lock orders the registration of an accepted connection in Serve against Shutdown
+	lock         sync.Mutex
+	shuttingDown bool
 }
 
 // ConnectHook wraps the configured connectHook function, calling it with the provided context.
@@ -99,6 +102,8 @@ func NewServer(listener net.Listener, handler RequestHandler) *Server {
 		new(sync.WaitGroup),
 		nil,
 		nil,
+		sync.Mutex{},
+		false,
 	}
 }
 
@@ -143,7 +148,16 @@ func (srv *Server) Serve() error {
 			//TODO: Return a shutdown error if shutdown has been requested
 			return err
 		}
+		// A connection accepted just before the listener was closed must either be
+		// registered before Shutdown starts waiting, or not be served at all.
+		srv.lock.Lock()
+		if srv.shuttingDown {
+			srv.lock.Unlock()
+			_ = conn.Close()
+			return ErrShutdown
+		}
 		srv.wg.Add(1)
+		srv.lock.Unlock()
 		go srv.handleConn(conn)
 	}
 }
@@ -158,6 +172,9 @@ func (srv *Server) Serve() error {
 // Returns any error encountered while closing the listener.
 func (srv *Server) Shutdown() error {
 	srv.logger.Warn("Shutting down")
+	srv.lock.Lock()
+	srv.shuttingDown = true
+	srv.lock.Unlock()
 	// 1. Close listener to prevent new incoming conections
 	err := srv.listener.Close()
 	// 2. Cancel recvCtx to stop receiving new requests
